@@ -272,6 +272,18 @@ func superProfile() chain.Profile {
 	return p
 }
 
+// superstoreProfile: the super profile with many stores: several super nodes exist early on and orders keep drawing on the
+// round-robin cursor that picks one of them (block streams for the replica engine).
+func superstoreProfile() chain.Profile {
+	p := superProfile()
+	p.Name = "superstore"
+	p.Caps = []int64{3000000, 3000000, 4000000}
+	p.Weights = map[string]int{"Blocks": 14, "Delegate": 10, "Undelegate": 4, "ResetSuper": 4, "SuperCycle": 24, "AddVstorage": 2,
+		"StoreNew": 30, "Complete": 16, "Terminate": 6, "Claim": 2}
+	p.MaxData = 6
+	return p
+}
+
 func profileByName(n string) chain.Profile {
 	switch n {
 	case "pay":
@@ -288,6 +300,8 @@ func profileByName(n string) chain.Profile {
 		return scarceProfile()
 	case "super":
 		return superProfile()
+	case "superstore":
+		return superstoreProfile()
 	case "version":
 		return versionProfile()
 	case "fault":
